@@ -3,12 +3,13 @@ use crate::engine::Property;
 pub mod c01;
 pub mod c02;
 pub mod c03;
+pub mod c13;
 pub mod c15;
 pub mod c16;
 pub mod c17;
 
 pub fn all_ids() -> Vec<&'static str> {
-    vec!["C01", "C02", "C03", "C15", "C16", "C17"]
+    vec!["C01", "C02", "C03", "C13", "C15", "C16", "C17"]
 }
 
 pub fn build(id: &str) -> Option<Property> {
@@ -16,6 +17,7 @@ pub fn build(id: &str) -> Option<Property> {
         "C01" => Some(c01::property()),
         "C02" => Some(c02::property()),
         "C03" => Some(c03::property()),
+        "C13" => Some(c13::property()),
         "C15" => Some(c15::property()),
         "C16" => Some(c16::property()),
         "C17" => Some(c17::property()),
